@@ -140,6 +140,7 @@ def c06(rep, tier):
 
 def c09(rep, tier):
     p = P("all")
+    r_lock.run_global_setters(p, rep)
     r_freeze.run_freeze(p, rep)
     r_freeze.run_statics(p, rep)
     r_lock.run_ambient(p, rep)
@@ -182,6 +183,7 @@ def c19(rep, tier):
 
 def c20(rep, tier):
     p = P("all")
+    r_lock.run_global_setters(p, rep)
     r_freeze.run_autos(p, rep)
     r_freeze.run_freeze(p, rep)
     r_freeze.run_statics(p, rep)
@@ -331,6 +333,7 @@ def c16(rep, tier):
 def c17(rep, tier):
     p = P("all")
     r_table.run_directives(p, rep)
+    r_table.run_fmt_numeric(p, rep)
     r_table.run_date_formats(p, rep)
     r_table.run_date_cmp(p, rep)
     import r_strslice
@@ -520,7 +523,7 @@ PROPS = {
             "mutable state reachable from shared objects is LazyStore.cache; it is locked exactly once per lookup with check, compile and insert inside "
             "that one critical section and no callee under the lock can reach Mutex::lock or a store lookup (no self-deadlock); no RefCell guard is live "
             "across a call that can re-borrow; every parser panic site that could poison the lock is discharged by C01's census (known finding: F-LIT64). "
-            "NOT decided: schedule-level equivalence."
+            "No library function calls a process-global setter of a dependency or std (R-GLOBALSET: pest::set_call_limit, env, panic hook ..). NOT decided: schedule-level equivalence."
         ),
         "trusted": TRUST_COMMON + ["rustc trait solver", "std Mutex/Arc semantics"],
         "note": "data-race freedom is rustc's own guarantee given Send/Sync facts and no unsafe; lock discipline is checked on MIR",
@@ -538,7 +541,8 @@ PROPS = {
             "the array/object views of both operands of value_cmp are consumed alike (duality); object entry iterators (hash order) feed only order-insensitive "
             "consumers or are key-sorted first; DateTime/Date compare through derives on the wrapped time types (== and <,> agree); uniq/case identity and the "
             "template operators go through ValueViewCmp only. "
-            "NOT decided: reflexivity, numeric equality of particular values, NaN, date instants."
+            "Every ordering call in scalar_cmp compares something of lhs with something of rhs in that order, or reverses (R-ORIENT); `contains` on arrays uses ValueViewCmp == "
+            "(R-CONTAINS). NOT decided: reflexivity, numeric equality of particular values, NaN, date instants."
         ),
         "trusted": TRUST_COMMON,
         "note": "symmetry/coherence is decided at the level of which operations each kind pair uses, not their numeric results",
@@ -553,6 +557,7 @@ PROPS = {
             "produce its result and is total only if those are on Ord types or not defaulted; uniq and case/when decide identity through ValueViewCmp == "
             "only (no rendering- or hash-keyed shortcut), where by ValueViewCmp == / Truthy; reverse/first/last/concat/compact/join use their own operations; object "
             "comparison is independent of hash order. "
+            "The scalar comparator the sort is built on is mirror-symmetric, agrees with equality on conversions and is correctly oriented (R-MIRROR, R-ORIENT). "
             "NOT decided: permutation/multiset/idempotence laws, map/where/concat contents."
         ),
         "trusted": TRUST_COMMON,
@@ -569,7 +574,8 @@ PROPS = {
             "closure idiom where the enclosing function tests the same accessor's payload against 0 before building the closure); every filter converts "
             "both operands with to_integer before any float path, performs exactly one exact integer operation of the expected kind (checked_add/sub/mul/div, "
             "wrapping_rem, max, min, checked_abs) and never routes the integer path through f64; divided_by and modulo use the truncating pair. "
-            "NOT decided: IEEE results, rounding direction and ties of ceil/floor/round, string-to-number coercion results."
+            "A string operand becomes a number by `parse::<i64>()`/`parse::<f64>()` alone, with no other condition in the string arm (R-COERCE). "
+            "NOT decided: IEEE results, rounding direction and ties of ceil/floor/round, what str::parse accepts."
         ),
         "trusted": TRUST_COMMON + ["ledger/arith.tsv (3 reviewed lines, printed in the evidence)"],
         "note": "exactness is argued from which operations are used, not by evaluating them",
@@ -653,7 +659,8 @@ PROPS = {
             "Decided: escape emits exactly the five entities, mapped from < > ' \" &; escape_once's lookahead table is exactly those entities without the `&` "
             "(including the terminating `;`) and returns the matched prefix's length only; url_encode's set is NON_ALPHANUMERIC minus '-', '.', '_', is the set handed to "
             "utf8_percent_encode, and every non-nil result comes from that call (no bypass); url_decode translates '+', percent-decodes, uses the strict decode_utf8 and "
-            "propagates its error; escape's three slices use char_indices/ASCII-guarded bounds. NOT decided: invertibility and idempotence as such, the strip_html regexes."
+            "propagates its error; escape's three slices use char_indices/ASCII-guarded bounds; no character count is compared or combined with a byte offset in html.rs/url.rs "
+            "(R-UNITMIX). NOT decided: invertibility and idempotence as such, the strip_html regexes."
         ),
         "trusted": TRUST_COMMON + ["percent-encoding crate semantics"],
         "note": "tables and flows, not string-level equalities",
@@ -668,7 +675,9 @@ PROPS = {
             "to_iso_week_date, %U sunday_based_week, %j ordinal); DateTime's Display formats are among the formats parse_date_time accepts and the serde bridge reads what "
             "it writes; the constant pattern that detects a trailing offset recognises every +-HHMM from -1200 to +1445 and no offset-less form; DateTime/Date compare "
             "through the wrapped time types; mixed date arms of scalar_eq/scalar_cmp are mirrored; strftime's str slices are on character boundaries. "
-            "NOT decided: padding/width arithmetic, %L/%N digit formatting (format_args templates are opaque in MIR), calendar arithmetic inside `time`."
+            "Every zero-filled placeholder of strftime.rs is right-aligned (R-FMT.numeric, read off the expanded AST's format_args! nodes: a left-aligned zero fill "
+            "turned 5 ms into `500`, fixed as F-FRAC). NOT decided: padding/width arithmetic and the sign handling of negative numerics under the `-`/`_` flags, "
+            "calendar arithmetic inside `time`."
         ),
         "trusted": TRUST_COMMON + ["time crate accessors mean what their names say"],
         "note": "which field feeds which directive is decided; how it is padded is not",
@@ -700,6 +709,7 @@ PROPS = {
             "model/**/ser.rs (integers are narrowed with TryFrom); every derive(ObjectView, ValueView) struct in the workspace has size/keys/iter/contains_key/get/"
             "to_value agreeing on its field set with to_value inserting every field unconditionally; the truthiness table of every kind is the specified one; the serde "
             "bridges of Date/DateTime read exactly the formats they write (no lenient parser). "
+            "String, KString, KStringCow and KStringRef answer query_state through the &str implementation (R-SIBLINGS.str). "
             "NOT decided: serde round-trip equality, derive vs serde on user structs with serde attributes, printed forms."
         ),
         "trusted": TRUST_COMMON,
